@@ -1,7 +1,7 @@
 (* C13 — Assembly always terminates with output or a source-level diagnostic. *)
 From V Require Import Base.
 From V.model Require Import MText MValues MOperands MProgram.
-From V.proofs Require Import PSizeLoop PClean PTerminate.
+From V.proofs Require Import PSizeLoop PClean PTerminate PNoCrash.
 Local Open Scope N_scope.
 
 (* (a) For EVERY file map and EVERY list of source lines the model of Program.process ends: it never
@@ -24,16 +24,39 @@ Theorem C13_include_expansion_terminates :
 Proof. intros fm ss. apply expand_ff; [constructor | intros x [] | cbn [length]; lia]. Qed.
 Print Assumptions C13_include_expansion_terminates.
 
-(* (b) Parsing never fails with an internal error: for EVERY list of lines (any text whatsoever) the
-   parse is a list of statements, a ParseError, or — for a line with a newline in its middle, which
-   readlines() never produces — outside the model.  (partial: the later passes can still end in an
-   internal error, see (c); that their Internal predictions are complete is validated by the
-   correspondence fuzz, not proved.) *)
-Theorem C13_parsing_never_crashes_partial :
+(* (b) THE SECOND HALF OF THE PROPERTY: for EVERY file map and EVERY list of source lines (any text whatsoever)
+   the assembler never ends in an exception class it does not report as a diagnostic.  Every place of the model
+   that stands for such an exception - IndexError on a statement index, on a post-byte choice, on a hex string
+   shorter than the emission loop reads; AttributeError on the None that SymbolValue.resolve can return; a
+   ValueTypeError / OperandTypeError outside a try - is unreachable.  Invariants, carried from parsing to
+   emission (proofs/PNoCrash.v): every statement index stored in a value is below the number of statements;
+   None never reaches a dereference; an undecided statement offers two post-byte choices; every size hint is
+   even, every string character fits a byte, every value list has an even number of digits.
+   False upstream and on earlier states of this tree: repairs F5, F6, F19, F20, F21, F43, F47, F50, F51 each
+   removed a reachable site (the last two were found while this proof was being planned). *)
+Theorem C13_never_an_uncaught_exception :
+  forall (fm : filemap) (lines : list text) (k : N), MProgram.assemble fm lines <> Internal k.
+Proof. intros fm lines k H. pose proof (assemble_no_internal fm lines) as X. rewrite H in X. exact X. Qed.
+Print Assumptions C13_never_an_uncaught_exception.
+
+(* (a) + (b): the outcome is an image with its listing, or a diagnostic.  (Unmodelled is the model declining to
+   predict: a line with a newline in its middle, which readlines() never produces, or a number whose rendering
+   Python would sign - none is reachable in the correspondence runs, which count them.) *)
+Theorem C13_result_or_diagnostic :
+  forall (fm : filemap) (lines : list text),
+    match MProgram.assemble fm lines with Ok _ | Diag _ | Unmodelled => True | Internal _ | OutOfFuel => False end.
+Proof.
+  intros fm lines. pose proof (assemble_no_internal fm lines) as X. pose proof (assemble_terminates fm lines) as Y.
+  destruct (MProgram.assemble fm lines); auto.
+Qed.
+Print Assumptions C13_result_or_diagnostic.
+
+(* parsing alone *)
+Theorem C13_parsing_never_crashes :
   forall lines : list text,
     match MProgram.parse_lines lines with Ok _ | Diag _ | Unmodelled => True | Internal _ | OutOfFuel => False end.
 Proof. exact parse_lines_never_crash. Qed.
-Print Assumptions C13_parsing_never_crashes_partial.
+Print Assumptions C13_parsing_never_crashes.
 
 From Coq Require String.
 Import String.StringSyntax.
